@@ -1,4 +1,4 @@
-import CffiVerif.Proofs.TypeParser
+import CffiVerif.Proofs.TypeParserFull
 import CffiVerif.Generated.TypeNames
 
 /-!
@@ -10,12 +10,12 @@ backend's name printer (`Model/CName.lean`).  The Python parser (pycparser +
 cparser.py) is not modelled; the two real parsers and the model are compared by the
 correspondence run (harness/corr_C07.py).
 
-* `parse_cname_partial`: the C parser reads the name the backend prints for a type back
-  as that type — for every type tree built from primitive, struct, union and enum leaves
-  with pointers and arrays, over every declaration context in which the leaves are
-  declared.
-  Full statement (function pointer types included), covered by the correspondence only:
-    `∀ ctx T, WF ctx T → parseType ctx (cname T).1 = .ok T`.
+* `parse_cname` / `typeof_cname`: the C parser reads the name the backend prints for a type
+  back as that type — for every well-formed type of the full language (function pointer types
+  with fixed, empty and variadic parameter lists included, nested at will), over every
+  declaration context in which the leaves are declared; `parse_cname_partial` /
+  `typeof_cname_partial` are the earlier fragment statements, now corollaries.
+* `void_param_list_blank_insensitive`: blanks between `void` and `)` never matter.
 * `qualifiers_ignored`: `const` / `volatile` in front of the specifiers, in front of a
   declarator and after a `*` do not change what is parsed.
 * `decimal_octal_hex_length`: the decimal, octal and hex texts of a length are one number
@@ -26,19 +26,27 @@ correspondence run (harness/corr_C07.py).
 namespace CffiVerif.C07
 open CffiVerif.CName CffiVerif.TypeParser
 
-/-- **The C parser inverts the C printer** on the fragment without function types:
-`F` ranges over all trees of primitive/struct/union/enum leaves, pointers and arrays
-(`FTy`), `ctx` over all contexts in which `F`'s leaf is declared (`WFLeaf`), array lengths
-over everything an array type can have (`≤ 2^63-1`). -/
+/-- **The C parser inverts the C printer**: for every well-formed type `T` of the full type
+language — declared primitive/struct/union/enum leaves, pointers, arrays with lengths ≤ 2^63-1,
+and function pointer types with fixed, empty or variadic parameter lists, nested at will as
+parameters, results, array items and pointer targets (`WF ctx T`) — over every declaration
+context `ctx`, `parse_c_type` reads the name the backend prints for `T` back as `T`. -/
+theorem parse_cname (ctx : Ctx) (T : Ty) (hT : WF ctx T) : parseType ctx (cname T).1 = .ok T :=
+  parse_cname_full ctx T hT
+
+/-- … and `ffi.typeof` of a compiled FFI returns it whenever the backend can build the type. -/
+theorem typeof_cname (ctx : Ctx) (T : Ty) (hT : WF ctx T) (hv : valid ctx T = true) :
+    typeofC ctx (cname T).1 = .ok T := by
+  simp [typeofC, parse_cname_full ctx T hT, wf_not_func ctx T hT, hv]
+
+/-- The fragment without function types (earlier form of the statement), a corollary. -/
 theorem parse_cname_partial (ctx : Ctx) (F : FTy) (hleaf : WFLeaf ctx F.leaf) (hlens : F.LensOK) :
     parseType ctx (cname F.toTy).1 = .ok F.toTy :=
-  parse_cname_F ctx F hleaf hlens
+  parse_cname ctx F.toTy (wf_of_frag ctx F hleaf hlens)
 
-/-- … and `ffi.typeof` of a compiled FFI accepts it when the backend can build the type. -/
 theorem typeof_cname_partial (ctx : Ctx) (F : FTy) (hleaf : WFLeaf ctx F.leaf) (hlens : F.LensOK)
-    (hv : valid ctx F.toTy = true) : typeofC ctx (cname F.toTy).1 = .ok F.toTy := by
-  have hf : F.toTy.isFunc = false := by cases F <;> rfl
-  simp [typeofC, parse_cname_F ctx F hleaf hlens, hf, hv]
+    (hv : valid ctx F.toTy = true) : typeofC ctx (cname F.toTy).1 = .ok F.toTy :=
+  typeof_cname ctx F.toTy (wf_of_frag ctx F hleaf hlens) hv
 
 /-- Printed name of a parse result, `none` for a rejection (an observation with decidable
 equality, used by the concrete examples below). -/
@@ -58,6 +66,41 @@ example : parseType exCtx (cname exF.toTy).1 = .ok exF.toTy :=
     ⟨trivial, by intro n h; cases h; decide⟩
 example : WFLeaf exCtx (FTy.arr (.ptr (.agg .struct "s".toList)) (some 3)).leaf :=
   WFLeaf.struct "s".toList true ⟨by decide, by decide, by decide, by decide⟩ (by decide)
+
+-- non-vacuity for function pointer types: `struct s *(*(*)(char *, int(*)(void), ...))[3]`
+def exInt : Ty := .prim "int".toList
+theorem exWFInt : WF exCtx exInt := WF.leaf (.prim "int".toList) (WFLeaf.kwPrim ["int".toList] (by decide))
+def exCb : Ty := .ptr (.func [] exInt false)                      -- int(*)()
+def exCharP : Ty := .ptr (.prim "char".toList)
+def exFn : Ty :=
+  .ptr (.func [exCharP, exCb] (.ptr (.arr (.ptr (.agg .struct "s".toList)) (some 3))) true)
+example : (cname exFn).1 = "struct s *(*(*)(char *, int(*)(), ...))[3]".toList := by decide +kernel
+theorem exFn_wf : WF exCtx exFn := by
+  refine WF.fptr _ _ _ (WF.ptr _ (WF.arr _ _ (WF.ptr _ (WF.leaf (.agg .struct "s".toList)
+    (WFLeaf.struct "s".toList true ⟨by decide, by decide, by decide, by decide⟩ (by decide)))) ?_)) ?_ ?_ ?_
+  · intro n h; cases h; decide
+  · intro A hA
+    simp only [List.mem_cons, List.not_mem_nil, or_false] at hA
+    rcases hA with rfl | rfl
+    · exact WF.ptr _ (WF.leaf (.prim "char".toList) (WFLeaf.kwPrim ["char".toList] (by decide)))
+    · exact WF.fptr _ _ _ exWFInt (by intro A hA; cases hA) (by intro A hA; cases hA) (by intro h; cases h.1)
+  · intro A hA
+    simp only [List.mem_cons, List.not_mem_nil, or_false] at hA
+    rcases hA with rfl | rfl <;> rfl
+  · intro h; cases h.2
+example : parseType exCtx (cname exFn).1 = .ok exFn := parse_cname exCtx exFn exFn_wf
+
+/-- Why `WF` asks for adjusted parameter lists: on the type *trees* of the model the statement is
+false for an array parameter (the parser decays it, as C does — the backend identifies the two
+function types) and for the one-element list `(void)` (which is the empty parameter list). -/
+theorem wf_hypotheses_needed :
+    nameOf (parseType exCtx (cname (.ptr (.func [.arr exInt (some 3)] exInt false))).1) =
+      some "int(*)(int *)".toList ∧
+    (cname (.ptr (.func [.arr exInt (some 3)] exInt false))).1 = "int(*)(int[3])".toList ∧
+    nameOf (parseType exCtx (cname (.ptr (.func [.prim "void".toList] exInt false))).1) =
+      some "int(*)()".toList ∧
+    (cname (.ptr (.func [.prim "void".toList] exInt false))).1 = "int(*)(void)".toList := by
+  decide +kernel
 
 /-- **Qualifiers are ignored** wherever the C parser accepts them: before the specifiers
 (`parse_complete`'s `qualifiers:` loop), at the start of a declarator and after a star
@@ -143,6 +186,22 @@ theorem spec_order (ms ms' : List Tok) (hp : ms.Perm ms') (hm : ∀ t ∈ ms, is
 
 example : nameOf (parseType exCtx "long unsigned long int".toList) = some "unsigned long long".toList := by
   decide +kernel
+
+/-- **Blanks between `void` and `)` do not matter**: `get_following_char` skips blanks, so
+`(void )`, `(void\t\n)` and `(void)` are the same parameter list — for every text before and
+after, every run of blanks, every context.  (More generally blanks in front of any punctuation
+character never change the tokens: `tokens_blank_insensitive`.) -/
+theorem void_param_list_blank_insensitive (ctx : Ctx) (pre ws post : Str)
+    (hw : ∀ x ∈ ws, isSpace x = true) :
+    parseType ctx (pre ++ "void".toList ++ ws ++ ')' :: post) = parseType ctx (pre ++ "void".toList ++ ')' :: post) ∧
+    typeofC ctx (pre ++ "void".toList ++ ws ++ ')' :: post) = typeofC ctx (pre ++ "void".toList ++ ')' :: post) := by
+  have h := tokens_blank_insensitive (pre ++ "void".toList) ws post ')' hw (by decide)
+  constructor
+  · simp only [parseType, h]
+  · simp only [typeofC, parseType, h]
+
+example : nameOf (parseType exCtx "int(*)(void \t\n )".toList) = some "int(*)()".toList ∧
+    nameOf (parseType exCtx "int(*)(void)".toList) = some "int(*)()".toList := by decide +kernel
 
 /-! ### Tie to the source: the name tables re-extracted from /repo on every run -/
 
